@@ -143,6 +143,11 @@ class Check:
         self.rule = ""
         self.obligations, self.discharged = [], []
         self.fails, self.disagreements, self.brokens = [], [], []
+        # translations that could not be PRODUCED from the current source (unknown shape): the generated Lean file is left as
+        # it was, so the theorems are about the last translatable source and the tie to the current code rests on the
+        # correspondence alone (tie (H) of DESIGN.md).  Not a broken obligation by itself — see `broken`.
+        self.downgrades = []
+        self.strict_tie = os.environ.get("VERIF_STRICT_TIE", "") == "1"
         self.known_hits = []
         self.model_ok = False
         self.checker_cmd = ""
@@ -196,10 +201,19 @@ class Check:
         self.disagreements.append({"what": what, "case": case})
 
     def broken(self, name, detail=""):
+        """a proof obligation / the model driver / the correspondence no longer checks.
+        A translator that cannot MAP the current source (`translator: …` — a construct outside its fragment, typically after
+        a refactoring) is different from a translation whose theorems fail: nothing was re-proved, but nothing was refuted
+        either, and the frozen generated model is still tied to the code by the correspondence.  It is recorded as a
+        DOWNGRADE of the tie (T+H -> H): the enlarged failing-input search runs, and the verdict is a violation only if the
+        correspondence or the oracle then disagree.  `VERIF_STRICT_TIE=1` restores 'every lost tie is a violation'."""
+        if name.startswith("translator:") and not self.strict_tie:
+            self.downgrades.append({"name": name, "detail": detail[-4000:]})
+            return
         self.brokens.append({"name": name, "detail": detail[-4000:]})
 
     def needs_search(self):
-        return bool(self.brokens or self.disagreements) and not self.fails
+        return bool(self.brokens or self.disagreements or self.downgrades) and not self.fails
 
     # ------------------------------------------------------------------ Lean
     def _run(self, cmd, timeout=1800, **kw):
@@ -342,6 +356,9 @@ class Check:
         lines, code = [], 0
         for key, what in self.known_hits:
             lines.append(f"KNOWN-FINDING: property={self.prop} {key}: {what}")
+        for d in self.downgrades:
+            lines.append(f"TIE-DOWNGRADED: property={self.prop} {d['name']} — the generated model was left as it was; the "
+                         "verdict rests on the correspondence (model == implementation on every explored case) and the oracle")
         if self.fails:
             code = 1
             seen = set()
@@ -351,7 +368,7 @@ class Check:
                 seen.add(f["key"])
                 body = {"property": self.prop, "seed": self.seed, "tier": self.tier, "kind": "failing-input",
                         "key": f["key"], "what": f["what"], "case": f["case"],
-                        "broken": self.brokens[:5], "disagreements": self.disagreements[:5]}
+                        "broken": (self.brokens + self.downgrades)[:5], "disagreements": self.disagreements[:5]}
                 h = hashlib.sha1(json.dumps(body, sort_keys=True, default=str).encode()).hexdigest()[:10]
                 path = replay_dir / f"{self.prop}-{h}.json"
                 path.write_text(json.dumps(body, indent=1, default=str))
@@ -359,9 +376,9 @@ class Check:
         elif self.brokens or self.disagreements:
             code = 1
             body = {"property": self.prop, "seed": self.seed, "tier": self.tier, "kind": "no-failing-input-found",
-                    "no_longer_checks": [b["name"] for b in self.brokens]
+                    "no_longer_checks": [b["name"] for b in self.brokens + self.downgrades]
                     + (["correspondence model<->implementation"] if self.disagreements else []),
-                    "broken": self.brokens[:10], "disagreements": self.disagreements[:10]}
+                    "broken": (self.brokens + self.downgrades)[:10], "disagreements": self.disagreements[:10]}
             h = hashlib.sha1(json.dumps(body, sort_keys=True, default=str).encode()).hexdigest()[:10]
             path = replay_dir / f"{self.prop}-{h}.json"
             path.write_text(json.dumps(body, indent=1, default=str))
@@ -380,6 +397,7 @@ class Check:
             "histogram": dict(self.hist),
             "model_impl_disagreements": len(self.disagreements),
             "broken_obligations": [b["name"] for b in self.brokens],
+            "tie_downgraded": [d["name"] for d in self.downgrades],
             "known_findings_reproduced": [k for k, _ in self.known_hits],
         }
         cov.update(self.extra)
